@@ -31,7 +31,7 @@ ASSUMPTIONS = [
 ]
 BUDGET = {"quick": (6, 800), "thorough": (16, 6000)}
 
-KEYS = ["cls:Evt", "cls:Jet", "cls:Trk", "m:Evt.jets", "m:Evt.met", "m:Jet.pt", "m:Jet.trks", "m:Trk.pt", "fn", "prop:Jet.attr", "cls:Base", "m:Base.eta"]
+KEYS = ["cls:Evt", "cls:Jet", "cls:Trk", "m:Evt.jets", "m:Evt.met", "m:Jet.pt", "m:Jet.trks", "m:Trk.pt", "fn", "prop:Jet.attr", "cls:Base", "m:Base.eta", "fn2"]
 METHODS = {"Base": [("eta", "float")], "Evt": [("met", "float"), ("jets", "Iterable[Jet]")], "Jet": [("pt", "float"), ("trks", "Iterable[Trk]")], "Trk": [("pt", "float")]}
 BASES = {"Jet": "Base", "Trk": "Base"}  # Jet and Trk inherit eta() from Base
 
@@ -79,6 +79,9 @@ def _val(draw, var, cls, depth, names, ctr):
             return ["count", ["op", "SelectMany", src, v2, ["site", ["var", v2], child, c2, mark()]]]
         return ["site", ["first", src], child, _scalar_of(draw, child), mark()]
     if c == 6:
+        if draw(st.booleans()):
+            # a registered function with a defaulted second parameter (its processor may hand back a SHORTER call)
+            return ["fn2", mark(), draw(st.sampled_from([None, "2.5", "0.25"]))]
         return ["fn", mark()]
     if c == 7 and cls == "Jet":
         params = draw(st.sampled_from(["5", "'x'", "5, 'x'", "1, 2, 3", "'a', 2", "(1, 2)"]))
@@ -91,6 +94,8 @@ def _val(draw, var, cls, depth, names, ctr):
 @st.composite
 def _case(draw, maxdepth):
     cbs = {k: draw(st.sampled_from([None, None, "none", "none", "rename", "append"])) for k in KEYS}
+    if draw(st.booleans()):
+        cbs["fn2"] = "drop"  # the processor moves the second argument away and returns a call with one argument
     names = draw(st.sampled_from([["e", "j", "t"], ["e"], ["a", "b"]]))
     ctr = [0]
     stages = []
@@ -163,6 +168,14 @@ def render(ir, cbs, mode):
             return f"fn({ir[1]})"
         rw = cbs.get("fn")
         return f"{_rw_method('fn', rw)}({ir[1]}{', 77' if rw == 'append' else ''})"
+    if k == "fn2":
+        _, marker, second = ir
+        if mode == "written":
+            return f"fn2({marker}{', ' + second if second else ''})"
+        rw = cbs.get("fn2")
+        if rw == "drop":
+            return f"fn2_s({marker})"
+        return f"{_rw_method('fn2', rw)}({marker}, {second or '1.0'}{', 77' if rw == 'append' else ''})"
     if k == "psite":
         _, recv, params, marker = ir
         if mode == "written":
@@ -202,6 +215,8 @@ def sites_of(ir, depth=0, root_of_lambda=False):
         yield from sites_of(ir[1], depth)
     elif k == "fn":
         yield ("fn", None, None, ir[1], None, depth, root_of_lambda)
+    elif k == "fn2":
+        yield ("fn2", None, None, ir[1], None, depth, root_of_lambda)
     elif k == "psite":
         yield ("psite", "Jet", "attr", ir[3], ir[2], depth, root_of_lambda)
         yield from sites_of(ir[1], depth)
@@ -238,6 +253,10 @@ def build(cbs, log):
             elif rw == "append":
                 a2 = copy.copy(a)
                 a2.args = list(a.args) + [ast.Constant(value=77)]
+            elif rw == "drop":
+                a2 = copy.copy(a)
+                a2.func = ast.Name(id=a.func.id + "_s", ctx=ast.Load())
+                a2.args = list(a.args[:1])
             return s.MetaData({"cb": id_, "site": marker}), a2
 
         return cb
@@ -271,8 +290,10 @@ def build(cbs, log):
                 src.append("    @func_adl_parameterized_call(_cb_prop)")
             src.append("    @property\n    def attr(self): ...")
     src.append("def fn(tag: int) -> float: ...")
+    src.append("def fn2(tag: int, scale: float = 1.0) -> float: ...")
     exec("\n".join(src), ns)
     func_adl_callable(mk("fn", cbs["fn"]) if cbs.get("fn") else None)(ns["fn"])
+    func_adl_callable(mk("fn2", cbs["fn2"]) if cbs.get("fn2") else None)(ns["fn2"])
     return ns
 
 
@@ -319,15 +340,17 @@ def check(case) -> Result:
                 ids = site_keys(cbs, cls, meth)
             elif kind == "fn":
                 ids = ["fn"] if cbs.get("fn") else []
+            elif kind == "fn2":
+                ids = ["fn2"] if cbs.get("fn2") else []
             elif kind == "psite":
                 ids = ["prop:Jet.attr"] if cbs.get("prop:Jet.attr") else []
             if ids:
                 n_cb_sites += 1
                 if depth >= 2:
                     deep = True
-                if depth >= 1 and any(cbs[i] in ("rename", "append") for i in ids):
+                if depth >= 1 and any(cbs[i] in ("rename", "append", "drop") for i in ids):
                     rewrite_deep = True
-                if is_root and depth >= 1 and any(cbs[i] in ("rename", "append") for i in ids):
+                if is_root and depth >= 1 and any(cbs[i] in ("rename", "append", "drop") for i in ids):
                     r.labels.append("rewrite-at-root-of-nested-lambda")
             expected.append((ids, marker, ast.literal_eval(params) if params else None))
         del log[:]
